@@ -7,15 +7,19 @@
 // server and each response is judged against the statement.
 //
 // How the statement maps onto the package (internal/servers/hls):
+//
 //   - a "session" is a *session record in muxer.sessionsBySecret, created by GET <path>/index.m3u8
 //     ?cookieCheck=1 after pathManager.AddReader authenticated the client; its "secret" is the UUID
 //     handed back either as cookie hlsSession (when the cookieCheck cookie came back) or as query
 //     parameter session= inside the playlist URIs;
+//
 //   - "same IP": session.ip (host part of httpp.RemoteAddr = gin ClientIP) vs ctx.ClientIP(). Which
 //     address "the IP of a request" is depends on the configuration, so it is a dimension of Init:
+//
 //   - proxy world (Server.TrustedProxies = 127.0.0.1/32): the harness plays the trusted proxy and
 //     chooses the client IP with X-Forwarded-For (the right-most entry is what the proxy itself
 //     appended, i.e. the real peer);
+//
 //   - direct world (Server.TrustedProxies empty, THE DEFAULT): nobody is trusted, the IP of a
 //     request is the source address of its TCP connection. The harness binds its client sockets to
 //     distinct loopback source addresses (127.0.0.1, 127.0.0.2: every 127/8 address is local on
@@ -23,10 +27,30 @@
 //     OTHER address (X-Forwarded-For, X-Real-Ip, both, chains, Forwarded, platform headers): they
 //     must never change whose request it is, neither when a session is created nor when its
 //     secret is presented;
+//
 //   - "CDN secret": Authorization: Bearer <Server.CDNSecret> (only when CDNSecret is configured);
+//
 //   - "media playlists and segments": every file the gohlslib muxer of the path serves except the
 //     multivariant playlist index.m3u8 (that request creates sessions): media playlist, init,
 //     segment, part.
+//
+//   - handler world (TrustedProxies empty, requests handed to the server's own http.Handler with a
+//     chosen RemoteAddr): the only way to have IPv6 peers (2001:db8::1 ... do not exist on loopback).
+//     It carries the WIDE client-address alphabet {IPv4 a, IPv4 b, IPv6 a, IPv6 b, IPv4-mapped IPv6
+//     of a, link-local IPv6 without zone}; the proxy world carries the same alphabet over real TCP
+//     (X-Forwarded-For set by the trusted proxy). Every ordered pair session owner x requester is
+//     judged. Two spellings of one address (10.0.0.1 and ::ffff:10.0.0.1) are a don't-care: the
+//     statement says "same IP", serving and refusing are both accepted;
+//
+//   - sessions can only be created by GET <path>/index.m3u8 (with ?cookieCheck=1 directly, or without
+//     it through the 302 the server answers). Besides credentials a creating request may PRESENT the
+//     secret of somebody else's session (query session= or cookie hlsSession): that must not buy
+//     anything. Whatever secret such a request is handed becomes a session of the REQUESTER in the
+//     reference model (authorized only if the requester's own credentials are) and is then used for
+//     media by the request product.
+//
+// Nothing private of the packages is named: the listener, the http.Handler and the gohlslib muxers
+// are found by type (probe.go), session records are read through the exported API.
 //
 // Oracle (the "only" direction, exactly the statement): a response that carries media of path P
 // (status 200 and a body that is byte-identical to a file of P's muxer, or a playlist naming P's
@@ -44,6 +68,7 @@ import (
 	"net"
 	"net/http"
 	"net/http/httptest"
+	"net/url"
 	"os"
 	"regexp"
 	"sort"
@@ -77,12 +102,44 @@ var pathNames = []string{"a", "b"}
 
 // client IPs per world (index = op.Px): proxy world (chosen with X-Forwarded-For through the trusted
 // proxy 127.0.0.1), direct world (TCP source addresses of the client sockets)
-var worldIPs = [2][]string{{"10.0.0.1", "10.0.0.2"}, {"127.0.0.1", "127.0.0.2"}}
+var worldIPs = [3][]string{{"10.0.0.1", "10.0.0.2"}, {"127.0.0.1", "127.0.0.2"}, {"10.0.0.1", "10.0.0.2"}}
+
+// the wide client-address alphabet (proxy world and handler world): owner x requester, all pairs
+var (
+	wideIPs   = []string{"10.0.0.1", "10.0.0.2", "2001:db8::1", "2001:db8::2", "::ffff:10.0.0.1", "fe80::1"}
+	wideKinds = []string{"v4a", "v4b", "v6a", "v6b", "v4a-mapped-v6", "v6-link-local"}
+)
 
 const (
-	pxProxy  = 0 // TrustedProxies = 127.0.0.1/32
-	pxDirect = 1 // TrustedProxies empty (default configuration)
+	pxProxy   = 0 // TrustedProxies = 127.0.0.1/32
+	pxDirect  = 1 // TrustedProxies empty (default configuration), real TCP source addresses
+	pxHandler = 2 // TrustedProxies empty, requests handed to the http.Handler with a chosen RemoteAddr
 )
+
+func ipsOf(px int, wide bool) []string {
+	if wide {
+		return wideIPs
+	}
+	return worldIPs[px]
+}
+
+// ipEqual: the same address, whatever its spelling (10.0.0.1 == ::ffff:10.0.0.1).
+func ipEqual(a, b string) bool {
+	if a == b {
+		return true
+	}
+	pa, pb := net.ParseIP(a), net.ParseIP(b)
+	return pa != nil && pb != nil && pa.Equal(pb)
+}
+
+func kindOf(ip string) string {
+	for i, w := range wideIPs {
+		if w == ip {
+			return wideKinds[i]
+		}
+	}
+	return ip
+}
 
 type cred struct {
 	name, user, pass string
@@ -95,17 +152,19 @@ var creds = []cred{
 	{"badpass", "alice", "wrong"},   // wrong password
 	{"nocreds", "", ""},             // no credentials at all
 	{"unknown", "mallory", "apass"}, // unknown user
+	// not part of the -creds prefix: only used by Create requests that present a foreign secret
+	{"bearer-wrong", "", "Bearer wrongsecret"}, // an Authorization header that is not the CDN secret
 }
 
 // modelAuthorized is the reference decision, written from the user table above.
-func modelAuthorized(c cred, path string, ip string, px int) bool {
+func modelAuthorized(c cred, path string, ip string, carolIP string) bool {
 	switch {
 	case c.user == "alice" && c.pass == "apass":
 		return true
 	case c.user == "bob" && c.pass == "bpass":
 		return path == "b"
 	case c.user == "carol" && c.pass == "cpass":
-		return path == "a" && ip == worldIPs[px][0]
+		return path == "a" && ip == carolIP
 	}
 	return false
 }
@@ -118,7 +177,7 @@ func ipnet(s string) conf.IPNetwork {
 	return conf.IPNetwork{IP: n.IP.To4(), Mask: n.Mask}
 }
 
-func newAuthManager(px int) *auth.Manager {
+func newAuthManager(carolIP string) *auth.Manager {
 	rd := func(p string) []conf.AuthInternalUserPermission {
 		return []conf.AuthInternalUserPermission{{Action: conf.AuthActionRead, Path: p}}
 	}
@@ -127,7 +186,7 @@ func newAuthManager(px int) *auth.Manager {
 		InternalUsers: []conf.AuthInternalUser{
 			{User: "alice", Pass: "apass", Permissions: rd("")},
 			{User: "bob", Pass: "bpass", Permissions: rd("b")},
-			{User: "carol", Pass: "cpass", IPs: conf.IPNetworks{ipnet(worldIPs[px][0] + "/32")}, Permissions: rd("a")},
+			{User: "carol", Pass: "cpass", IPs: conf.IPNetworks{ipnet(carolIP + "/32")}, Permissions: rd("a")},
 			// a publisher account that must not grant reading
 			{User: "pub", Pass: "ppass", Permissions: []conf.AuthInternalUserPermission{{Action: conf.AuthActionPublish}}},
 		},
@@ -209,8 +268,11 @@ var spsList = [][]byte{
 	{0x67, 0x64, 0x00, 0x1f, 0xac, 0xd9, 0x40, 0x50, 0x05, 0xbb, 0x01, 0x6c, 0x80, 0x00, 0x00, 0x03, 0x00, 0x80, 0x00, 0x00, 0x1e, 0x07, 0x8c, 0x18, 0xcb},
 }
 
+// init files differ per path through the PPS
+func ppsOf(i int) []byte { return []byte{0x08, 0x06, 0x07, byte(0x08 + i)} }
+
 func newPath(i int, name string) *pathStub {
-	forma := &format.H264{PayloadTyp: 96, PacketizationMode: 1, SPS: spsList[0], PPS: []byte{0x08, 0x06, 0x07, byte(0x08 + i)}} // init files differ per path through the PPS
+	forma := &format.H264{PayloadTyp: 96, PacketizationMode: 1, SPS: spsList[0], PPS: ppsOf(i)}
 	media := &description.Media{Type: description.MediaTypeVideo, Formats: []format.Format{forma}}
 	p := &pathStub{name: name, desc: &description.Session{Medias: []*description.Media{media}}}
 	p.strm = &stream.Stream{
@@ -266,19 +328,43 @@ type op struct {
 	// (0 = none, 1 = X-Forwarded-For, 2 = X-Real-Ip). Proxy world: the proxy appends the real peer
 	// to the client's X-Forwarded-For ("other, real") and passes X-Real-Ip through.
 	Forge int
+	// opInit: the wide client-address alphabet (IPv4, IPv6, IPv4-mapped, link-local) instead of two addresses
+	Wide bool
+	// opCreate: the request also PRESENTS the secret of session PK (somebody else's, live or kicked):
+	// 0 = no, 1 = in the query (session=), 2 = in the cookie (hlsSession)
+	Present int
+	PK      int
+	// opCreate: 0 = GET index.m3u8?cookieCheck=1, 1 = GET index.m3u8 and follow the 302
+	Entry int
 }
+
+var presentNames = []string{"", "query", "cookie"}
 
 var forgeNames = []string{"", ",forged-xff", ",forged-x-real-ip"}
 
 func (o op) String() string {
 	switch o.Kind {
 	case opInit:
-		if o.Px == pxDirect {
-			return []string{"Init(cdn=on,no-trusted-proxies)", "Init(cdn=off,no-trusted-proxies)"}[o.Cfg]
+		s := []string{"Init(cdn=on", "Init(cdn=off"}[o.Cfg]
+		switch o.Px {
+		case pxDirect:
+			s += ",no-trusted-proxies"
+		case pxHandler:
+			s += ",no-trusted-proxies,requests-through-the-http-handler"
 		}
-		return []string{"Init(cdn=on)", "Init(cdn=off)"}[o.Cfg]
+		if o.Wide {
+			s += ",wide-address-alphabet"
+		}
+		return s + ")"
 	case opCreate:
-		return fmt.Sprintf("Create(%s,%s,%s,%s%s)", pathNames[o.Path], worldIPs[o.Px][o.IP], creds[o.Cred].name, []string{"query", "cookie"}[o.Mode], forgeNames[o.Forge])
+		extra := ""
+		if o.Present != 0 {
+			extra += fmt.Sprintf(",presents-secret-of-#%d-in-%s", o.PK, presentNames[o.Present])
+		}
+		if o.Entry == 1 {
+			extra += ",via-302-without-cookieCheck"
+		}
+		return fmt.Sprintf("Create(%s,%s,%s,%s%s%s)", pathNames[o.Path], ipsOf(o.Px, o.Wide)[o.IP], creds[o.Cred].name, []string{"query", "cookie"}[o.Mode], forgeNames[o.Forge], extra)
 	case opCDN:
 		return fmt.Sprintf("CDNIndex(%s,%s)", pathNames[o.Path], []string{"bearer-cdn", "bearer-empty"}[o.Mode])
 	default:
@@ -308,30 +394,41 @@ type msession struct {
 	path       string
 	ip         string
 	secret     string
-	authorized bool // per the reference model
-	live       bool
-	how        string
-	forge      int // the creating request carried a forged forwarding header (op.Forge)
+	id         uuid.UUID // of the server's record (exported API), uuid.Nil if it could not be told
+	authorized bool      // per the reference model
+	// the statement leaves it open: the session was handed to a client without valid credentials of
+	// its own that presented, from the SAME address and for the SAME path, the secret of a live
+	// session of an authorized client (it was entitled to that media anyway)
+	dontcare bool
+	live     bool
+	how      string
+	forge    int    // the creating request carried a forged forwarding header (op.Forge)
+	via      string // "" or how a foreign secret was presented by the creating request
 }
 
 type world struct {
 	cfg      int
 	px       int
+	wide     bool
 	ips      []string
 	srv      *hls.Server
 	base     string
-	clients  map[string]*http.Client // by TCP source address ("" = unbound, i.e. 127.0.0.1)
+	handler  http.Handler               // the server's own handler (handler world)
+	hmux     map[string]*gohlslib.Muxer // by path: reference bodies only
+	clients  map[string]*http.Client    // by TCP source address ("" = unbound, i.e. 127.0.0.1)
 	trs      []*http.Transport
 	pm       *pmStub
 	ref      map[string]*refFiles
 	sessions []*msession
 	cdnIndex map[string]bool
 	anomaly  []string
+	broken   bool // secrets handed out and session records do not correspond one to one
 }
 
-func newWorld(cfg, px int) *world {
-	w := &world{cfg: cfg, px: px, ips: worldIPs[px], ref: map[string]*refFiles{}, cdnIndex: map[string]bool{}, clients: map[string]*http.Client{}}
-	w.pm = &pmStub{paths: map[string]*pathStub{}, auth: newAuthManager(px)}
+func newWorld(cfg, px int, wide bool) *world {
+	w := &world{cfg: cfg, px: px, wide: wide, ips: ipsOf(px, wide), ref: map[string]*refFiles{}, cdnIndex: map[string]bool{},
+		clients: map[string]*http.Client{}, hmux: map[string]*gohlslib.Muxer{}}
+	w.pm = &pmStub{paths: map[string]*pathStub{}, auth: newAuthManager(w.ips[0])}
 	for i, n := range pathNames {
 		w.pm.paths[n] = newPath(i, n)
 	}
@@ -340,7 +437,7 @@ func newWorld(cfg, px int) *world {
 		secret = ""
 	}
 	trusted := conf.IPNetworks{ipnet("127.0.0.1/32")}
-	if px == pxDirect {
+	if px != pxProxy {
 		trusted = nil // the default: no trusted proxies
 	}
 	w.srv = &hls.Server{
@@ -362,10 +459,12 @@ func newWorld(cfg, px int) *world {
 	if err := w.srv.Initialize(); err != nil {
 		vcommon.Harness("hls server: %v", err)
 	}
-	w.base = "http://" + hls.VerifC43ListenAddr(w.srv).String()
 	srcs := []string{""}
-	if px == pxDirect {
+	switch px {
+	case pxDirect:
 		srcs = w.ips
+	case pxHandler:
+		srcs = nil
 	}
 	for _, src := range srcs {
 		tr := &http.Transport{MaxIdleConns: 8, MaxIdleConnsPerHost: 8}
@@ -391,28 +490,58 @@ func newWorld(cfg, px int) *world {
 		p.strm.WaitForReaders()
 		p.feed(i)
 	}
-	for _, n := range pathNames {
-		w.discover(n)
+	// listener, handler and gohlslib muxers, found by type. The muxer instance is published by the
+	// muxer's goroutine right after it attached its reader: wait for it (bounded).
+	var g *graphFinds
+	for try := 0; ; try++ {
+		g = inspectGraph(w.srv)
+		if len(g.hmuxers) == len(pathNames) {
+			break
+		}
+		if try > 5000 {
+			vcommon.Harness("found %d gohlslib muxers below the hls.Server (routes %v), expected %d: the harness cannot fetch its reference bodies", len(g.hmuxers), g.routes, len(pathNames))
+		}
+		time.Sleep(time.Millisecond)
+	}
+	if len(g.listeners) != 1 || len(g.servers) != 1 || g.servers[0].Handler == nil {
+		vcommon.Harness("found %d net.Listener and %d *http.Server below the hls.Server, expected one of each", len(g.listeners), len(g.servers))
+	}
+	w.base = "http://" + g.listeners[0].Addr().String()
+	w.handler = g.servers[0].Handler
+	// which muxer serves which path is told by content: the PPS of the path's stream is in its init file
+	for _, hm := range g.hmuxers {
+		rf := w.discover(hm)
+		owner := ""
+		for i, n := range pathNames {
+			if bytes.Contains(rf.bodies[rf.files["init"]], ppsOf(i)) {
+				if owner != "" {
+					vcommon.Harness("init file matches two paths")
+				}
+				owner = n
+			}
+		}
+		if owner == "" || w.ref[owner] != nil {
+			vcommon.Harness("cannot attribute a gohlslib muxer to a path (owner %q)", owner)
+		}
+		w.ref[owner] = rf
+		w.hmux[owner] = hm
 	}
 	return w
 }
 
-func (w *world) direct(path, file, query string) (int, []byte) {
+func (w *world) direct(hm *gohlslib.Muxer, file, query string) (int, []byte) {
 	rec := httptest.NewRecorder()
 	u := "/" + file
 	if query != "" {
 		u += "?" + query
 	}
 	req := httptest.NewRequest(http.MethodGet, u, nil)
-	done := make(chan error, 1)
-	go func() { done <- hls.VerifC43DirectHandle(w.srv, path, rec, req) }()
+	done := make(chan struct{}, 1)
+	go func() { hm.Handle(rec, req); done <- struct{}{} }()
 	select {
-	case err := <-done:
-		if err != nil {
-			vcommon.Harness("direct fetch %s/%s: %v", path, file, err)
-		}
+	case <-done:
 	case <-time.After(30 * time.Second):
-		vcommon.Harness("direct fetch %s/%s did not return within 30 s", path, file)
+		vcommon.Harness("direct fetch %s did not return within 30 s", file)
 	}
 	return rec.Code, rec.Body.Bytes()
 }
@@ -423,7 +552,7 @@ var (
 	reSeg  = regexp.MustCompile(`(?m)^([^#\n][^\n?]*\.mp4)`)
 )
 
-func (w *world) discover(path string) {
+func (w *world) discover(hm *gohlslib.Muxer) *refFiles {
 	rf := &refFiles{files: map[string]string{}, bodies: map[string][]byte{}, playlist: "video1_stream.m3u8"}
 	// initial gap of 7 segments: the first real segment has sequence number 7
 	last := 7 + nFrames - 2
@@ -431,9 +560,9 @@ func (w *world) discover(path string) {
 	var code int
 	var body []byte
 	for msn := 8; msn <= last; msn++ {
-		code, body = w.direct(path, rf.playlist, fmt.Sprintf("_HLS_msn=%d&_HLS_part=0", msn))
+		code, body = w.direct(hm, rf.playlist, fmt.Sprintf("_HLS_msn=%d&_HLS_part=0", msn))
 		if code != 200 {
-			vcommon.Harness("direct media playlist of %s (msn %d): status %d", path, msn, code)
+			vcommon.Harness("direct media playlist (msn %d): status %d", msn, code)
 		}
 	}
 	m := reMap.FindSubmatch(body)
@@ -445,7 +574,7 @@ func (w *world) discover(path string) {
 	}
 	parts := rePart.FindAllSubmatch(body, -1)
 	if m == nil || len(segs) < 2 || len(parts) < 1 {
-		vcommon.Harness("cannot parse media playlist of %s:\n%s", path, body)
+		vcommon.Harness("cannot parse media playlist:\n%s", body)
 	}
 	rf.files["init"] = string(m[1])
 	rf.files["seg"] = string(segs[1][1])
@@ -456,13 +585,13 @@ func (w *world) discover(path string) {
 	}
 	rf.prefix = rf.files["init"][:i]
 	for _, k := range []string{"init", "seg", "part"} {
-		c, b := w.direct(path, rf.files[k], "")
+		c, b := w.direct(hm, rf.files[k], "")
 		if c != 200 || len(b) == 0 {
-			vcommon.Harness("direct fetch of %s/%s: status %d len %d", path, rf.files[k], c, len(b))
+			vcommon.Harness("direct fetch of %s: status %d len %d", rf.files[k], c, len(b))
 		}
 		rf.bodies[rf.files[k]] = b
 	}
-	w.ref[path] = rf
+	return rf
 }
 
 func (w *world) closeIdle() {
@@ -485,18 +614,32 @@ type hreq struct {
 	cookie  string
 	xff     string
 	authz   string
-	src     string      // direct world: TCP source address of the connection
+	src     string      // direct world: TCP source address of the connection; handler world: host of RemoteAddr
 	hdrs    [][2]string // further client-supplied headers (forwarding headers)
 }
 
 func (w *world) do(r hreq) (int, http.Header, []byte) {
-	u := w.base + r.urlPath
+	u := r.urlPath
 	if r.query != "" {
 		u += "?" + r.query
 	}
-	req, err := http.NewRequest(http.MethodGet, u, nil)
-	if err != nil {
-		vcommon.Harness("request %q: %v", u, err)
+	var req *http.Request
+	if w.px == pxHandler {
+		req = httptest.NewRequest(http.MethodGet, u, nil)
+		// the peer address as net/http reports it; the port differs per address like real clients' do
+		port := 5000
+		for i, ip := range w.ips {
+			if ip == r.src {
+				port += i
+			}
+		}
+		req.RemoteAddr = net.JoinHostPort(r.src, fmt.Sprint(port))
+	} else {
+		var err error
+		req, err = http.NewRequest(http.MethodGet, w.base+u, nil)
+		if err != nil {
+			vcommon.Harness("request %q: %v", u, err)
+		}
 	}
 	if r.cookie != "" {
 		req.Header.Set("Cookie", r.cookie)
@@ -509,6 +652,11 @@ func (w *world) do(r hreq) (int, http.Header, []byte) {
 	}
 	for _, h := range r.hdrs {
 		req.Header.Set(h[0], h[1])
+	}
+	if w.px == pxHandler {
+		rec := httptest.NewRecorder()
+		w.handler.ServeHTTP(rec, req)
+		return rec.Code, rec.Header(), rec.Body.Bytes()
 	}
 	cl := w.clients[r.src]
 	if cl == nil {
@@ -530,6 +678,9 @@ func basic(c cred) string {
 	if c.user == "" && c.pass == "" {
 		return ""
 	}
+	if c.user == "" && strings.HasPrefix(c.pass, "Bearer ") {
+		return c.pass
+	}
 	r, _ := http.NewRequest(http.MethodGet, "http://x/", nil)
 	r.SetBasicAuth(c.user, c.pass)
 	return r.Header.Get("Authorization")
@@ -537,49 +688,146 @@ func basic(c cred) string {
 
 var reSessionQuery = regexp.MustCompile(`[?&]session=([0-9a-fA-F-]{36})`)
 
-func (w *world) apply(o op) {
+// handedSecrets lists every session secret a response carries (cookie hlsSession, session= in the
+// playlist URIs or in a Location header).
+func handedSecrets(hdr http.Header, body []byte) []string {
+	var out []string
+	for _, ck := range (&http.Response{Header: hdr}).Cookies() {
+		if ck.Name == "hlsSession" {
+			out = append(out, strings.ToLower(ck.Value))
+		}
+	}
+	for _, m := range reSessionQuery.FindAllSubmatch(body, -1) {
+		out = append(out, strings.ToLower(string(m[1])))
+	}
+	for _, m := range reSessionQuery.FindAllStringSubmatch(hdr.Get("Location"), -1) {
+		out = append(out, strings.ToLower(m[1]))
+	}
+	return out
+}
+
+// records lists the session records of the real server (exported API).
+func (w *world) records() []defs.APIHLSSession {
+	l, err := w.srv.APISessionsList()
+	if err != nil {
+		vcommon.Harness("APISessionsList: %v", err)
+	}
+	return l.Items
+}
+
+func recordIP(rs defs.APIHLSSession) string {
+	h, _, err := net.SplitHostPort(rs.RemoteAddr)
+	if err != nil {
+		return rs.RemoteAddr
+	}
+	return h
+}
+
+// setSender fills in who sends a creating request: client address index ipx, forged header form.
+func (w *world) setSender(r *hreq, ipx, forge int) {
+	ip := w.ips[ipx]
+	other := w.ips[(ipx+1)%len(w.ips)]
+	if !w.wide {
+		other = w.ips[1-ipx]
+	}
+	if w.px == pxProxy {
+		r.xff = ip // what the trusted proxy reports
+		switch forge {
+		case 1:
+			r.xff = other + ", " + ip // the client sent X-Forwarded-For: other, the proxy appended the peer
+		case 2:
+			r.hdrs = [][2]string{{"X-Real-Ip", other}}
+		}
+	} else {
+		r.src = ip // the address the client really connects from
+		switch forge {
+		case 1:
+			r.xff = other
+		case 2:
+			r.hdrs = [][2]string{{"X-Real-Ip", other}}
+		}
+	}
+}
+
+// apply executes one operation; it returns the number of sessions the model gained.
+func (w *world) apply(o op) int {
 	switch o.Kind {
 	case opCreate:
 		c := creds[o.Cred]
-		path, ip, other := pathNames[o.Path], w.ips[o.IP], w.ips[1-o.IP]
-		r := hreq{urlPath: "/" + path + "/index.m3u8", query: "cookieCheck=1", authz: basic(c)}
-		if w.px == pxProxy {
-			r.xff = ip // what the trusted proxy reports
-			switch o.Forge {
-			case 1:
-				r.xff = other + ", " + ip // the client sent X-Forwarded-For: other, the proxy appended the peer
-			case 2:
-				r.hdrs = [][2]string{{"X-Real-Ip", other}}
-			}
-		} else {
-			r.src = ip // the address the client really connects from
-			switch o.Forge {
-			case 1:
-				r.xff = other
-			case 2:
-				r.hdrs = [][2]string{{"X-Real-Ip", other}}
-			}
+		path, ip := pathNames[o.Path], w.ips[o.IP]
+		before := map[uuid.UUID]bool{}
+		for _, rs := range w.records() {
+			before[rs.ID] = true
+		}
+		known := map[string]bool{}
+		for _, s := range w.sessions {
+			known[s.secret] = true
+		}
+		r := hreq{urlPath: "/" + path + "/index.m3u8", authz: basic(c)}
+		w.setSender(&r, o.IP, o.Forge)
+		var q, cookies []string
+		if o.Entry == 0 {
+			q = append(q, "cookieCheck=1")
 		}
 		if o.Mode == 1 {
-			r.cookie = "cookieCheck=1"
+			cookies = append(cookies, "cookieCheck=1") // a client that stores and returns the cookieCheck cookie
 		}
+		var foreign *msession
+		switch o.Present {
+		case 1:
+			foreign = w.sessions[o.PK]
+			q = append(q, "session="+foreign.secret)
+		case 2:
+			foreign = w.sessions[o.PK]
+			cookies = append(cookies, "hlsSession="+foreign.secret)
+		}
+		r.query, r.cookie = strings.Join(q, "&"), strings.Join(cookies, "; ")
 		code, hdr, body := w.do(r)
-		secret := ""
-		if o.Mode == 1 {
-			for _, ck := range (&http.Response{Header: hdr}).Cookies() {
-				if ck.Name == "hlsSession" {
-					secret = ck.Value
-				}
+		handed := handedSecrets(hdr, body)
+		if o.Entry == 1 && code >= 300 && code < 400 && hdr.Get("Location") != "" {
+			// follow the redirect like a browser: same peer, same credentials, same cookies
+			if lu, err := url.Parse(hdr.Get("Location")); err == nil {
+				r2 := r
+				r2.urlPath, r2.query = lu.EscapedPath(), lu.RawQuery
+				code, hdr, body = w.do(r2)
+				handed = append(handed, handedSecrets(hdr, body)...)
 			}
-		} else if m := reSessionQuery.FindSubmatch(body); m != nil {
-			secret = string(m[1])
 		}
-		auth := modelAuthorized(c, path, ip, w.px)
-		if secret != "" {
-			w.sessions = append(w.sessions, &msession{path: path, ip: ip, secret: secret, authorized: auth, live: true, how: o.String(), forge: o.Forge})
-		} else if auth {
+		// secrets the requester did not have before (a presented secret may be echoed in the URIs)
+		var fresh []string
+		for _, s := range handed {
+			if !known[s] {
+				known[s] = true
+				fresh = append(fresh, s)
+			}
+		}
+		var newIDs []uuid.UUID
+		for _, rs := range w.records() {
+			if !before[rs.ID] && !rs.IsCDN {
+				newIDs = append(newIDs, rs.ID)
+			}
+		}
+		auth := modelAuthorized(c, path, ip, w.ips[0])
+		dontcare := !auth && foreign != nil && foreign.live && foreign.authorized && foreign.path == path && ipEqual(foreign.ip, ip)
+		via := ""
+		if foreign != nil {
+			via = "foreign-secret-in-" + presentNames[o.Present]
+		}
+		if len(fresh) != len(newIDs) || len(fresh) > 1 {
+			w.broken = true
+			w.anomaly = append(w.anomaly, fmt.Sprintf("%s: %d new secrets handed out but %d new session records (status %d)", o, len(fresh), len(newIDs), code))
+		}
+		for i, s := range fresh {
+			ms := &msession{path: path, ip: ip, secret: s, authorized: auth, dontcare: dontcare, live: true, how: o.String(), forge: o.Forge, via: via}
+			if i < len(newIDs) && len(fresh) == len(newIDs) {
+				ms.id = newIDs[i]
+			}
+			w.sessions = append(w.sessions, ms)
+		}
+		if len(fresh) == 0 && auth {
 			w.anomaly = append(w.anomaly, fmt.Sprintf("%s: authorized by the model but no session secret was handed out (status %d)", o, code))
 		}
+		return len(fresh)
 	case opCDN:
 		path := pathNames[o.Path]
 		hdr := "Bearer " + cdnSecret
@@ -598,33 +846,33 @@ func (w *world) apply(o op) {
 		}
 	case opKick:
 		s := w.sessions[o.K]
-		for _, rs := range hls.VerifC43Sessions(w.srv, s.path) {
-			if rs.Secret.String() == s.secret {
-				if err := w.srv.APISessionsKick(rs.ID); err != nil {
-					vcommon.Harness("kick: %v", err)
-				}
+		if s.id != uuid.Nil {
+			if err := w.srv.APISessionsKick(s.id); err != nil {
+				vcommon.Harness("kick: %v", err)
 			}
 		}
 		s.live = false
 	}
+	return 0
 }
 
 // deviates reports whether the session records of the real server differ from the model's live
 // sessions (used only to decide about a safe teardown, never as an oracle).
 func (w *world) deviates() bool {
-	real := map[string]bool{}
-	for _, n := range pathNames {
-		for _, rs := range hls.VerifC43Sessions(w.srv, n) {
-			if !rs.IsCDN {
-				real[rs.Secret.String()] = true
-			}
+	if w.broken {
+		return true
+	}
+	real := map[uuid.UUID]bool{}
+	for _, rs := range w.records() {
+		if !rs.IsCDN {
+			real[rs.ID] = true
 		}
 	}
 	n := 0
 	for _, s := range w.sessions {
 		if s.live {
 			n++
-			if !real[s.secret] {
+			if !real[s.id] {
 				return true
 			}
 		}
@@ -637,35 +885,44 @@ func (w *world) deviates() bool {
 // (they widen the request alphabet). Two states with the same key answer every request of the
 // product identically because onRequest/findSession read only cdnSecret, the muxer map (fixed),
 // sessionsBySecret (secret -> ip) and cdnSession != nil; which user created a session, its age and
-// byte counters are never consulted.
+// byte counters are never consulted. The records come from the exported API (ip = host part of the
+// record's remote address).
 func (w *world) key() string {
 	var live, gone []string
-	for _, n := range pathNames {
-		for _, rs := range hls.VerifC43Sessions(w.srv, n) {
-			tag := "S"
-			if rs.IsCDN {
-				tag = "CDN"
-			}
-			ip := rs.IP
-			if rs.IsCDN {
-				ip = "-"
-			}
-			known := "?"
-			for _, s := range w.sessions {
-				if s.secret == rs.Secret.String() {
-					known = fmt.Sprintf("auth=%v", s.authorized)
-					if s.ip != rs.IP {
-						// the record's IP is not the IP the client really had: a different state for
-						// the reference model (never happens on a correct tree)
-						known += "/really-from-" + s.ip
-					}
+	recs := w.records()
+	for _, rs := range recs {
+		tag := "S"
+		if rs.IsCDN {
+			tag = "CDN"
+		}
+		ip := recordIP(rs)
+		if rs.IsCDN {
+			ip = "-"
+		}
+		known := "?"
+		for _, s := range w.sessions {
+			if s.id == rs.ID {
+				known = fmt.Sprintf("auth=%v", s.authorized)
+				if s.dontcare {
+					known = "auth=open"
+				}
+				if s.via != "" && !s.authorized {
+					// (a session an authorized client obtained while also presenting a foreign secret is an
+					// ordinary session: same state as without the foreign secret)
+					known += "/" + s.via
+				}
+				if s.ip != ip {
+					// the record's IP is not the IP the client really had: a different state for
+					// the reference model (on a correct tree only as another spelling of the same
+					// address: ::ffff:10.0.0.1 recorded as 10.0.0.1)
+					known += "/really-from-" + s.ip
 				}
 			}
-			if rs.IsCDN {
-				known = ""
-			}
-			live = append(live, fmt.Sprintf("%s:%s@%s%s", tag, rs.Path, ip, known))
 		}
+		if rs.IsCDN {
+			known = ""
+		}
+		live = append(live, fmt.Sprintf("%s:%s@%s%s", tag, rs.Path, ip, known))
 	}
 	for _, s := range w.sessions {
 		if !s.live {
@@ -675,8 +932,14 @@ func (w *world) key() string {
 	sort.Strings(live)
 	sort.Strings(gone)
 	world := ""
-	if w.px == pxDirect {
+	switch w.px {
+	case pxDirect:
 		world = "no-trusted-proxies "
+	case pxHandler:
+		world = "no-trusted-proxies(handler) "
+	}
+	if w.wide {
+		world += "wide "
 	}
 	return fmt.Sprintf("%scdn=%v | %s | %s", world, w.cfg == 0, strings.Join(live, " "), strings.Join(gone, " "))
 }
@@ -699,6 +962,15 @@ type prodStats struct {
 	forgedPin      int // requests with the secret of a live authorized session of the path from ANOTHER address, with forwarding headers naming the session's address
 	forgedEntitled int // entitled requests (right secret, right address) whose forwarding headers name another address
 	classes        map[string]int
+	// wide address alphabet: "world|owner kind->requester kind" -> requests presenting the secret of a
+	// live authorized session of the requested path; and how many of them were served
+	widePairs  map[string]int
+	wideServed map[string]int
+	openServed int // served although the statement leaves the case open (counted, not judged)
+}
+
+func newProdStats() prodStats {
+	return prodStats{served: map[string]int{}, classes: map[string]int{}, widePairs: map[string]int{}, wideServed: map[string]int{}}
 }
 
 // ipChoice is one value of the "who sends the request" dimension.
@@ -719,9 +991,22 @@ type ipChoice struct {
 // Direct world: nobody is trusted; the client IP is the TCP source address whatever the headers say.
 // Every source address is crossed with the forwarding-header forms, each naming the OTHER address O
 // (S = the sender's own address).
-func ipChoices(px int, thorough bool) []ipChoice {
-	ips := worldIPs[px]
+func ipChoices(px int, wide, thorough bool) []ipChoice {
+	ips := ipsOf(px, wide)
 	var out []ipChoice
+	if wide {
+		// every address of the wide alphabet, as the trusted proxy reports it / as the peer address
+		for i, ip := range ips {
+			c := ipChoice{name: wideKinds[i], cip: ip}
+			if px == pxProxy {
+				c.xff = ip
+			} else {
+				c.src = ip
+			}
+			out = append(out, c)
+		}
+		return out
+	}
 	if px == pxProxy {
 		xffs := []string{ips[0], ips[1], ips[0] + ", " + ips[1]}
 		if thorough {
@@ -780,7 +1065,7 @@ func (w *world) product(thorough bool, st *prodStats) []finding {
 	for i, s := range w.sessions {
 		secrets = append(secrets, secretChoice{fmt.Sprintf("session#%d", i), s.secret, s})
 	}
-	senders := ipChoices(w.px, thorough)
+	senders := ipChoices(w.px, w.wide, thorough)
 	authzs := []struct{ name, val string }{
 		{"none", ""}, {"bearer-cdn", "Bearer " + cdnSecret}, {"bearer-wrong", "Bearer wrongsecret"},
 		{"bearer-empty", "Bearer "}, {"basic-alice", basic(creds[0])},
@@ -794,6 +1079,12 @@ func (w *world) product(thorough bool, st *prodStats) []finding {
 	if thorough {
 		targets = append(targets, target{"/a/../b", "b"}, target{"/./a", "a"})
 	}
+	if w.wide {
+		// the wide worlds vary WHO asks, not how: plain targets, session secrets only
+		targets = targets[:2]
+		authzs = authzs[:1]
+		secrets = append(secrets[:1:1], secrets[len(secrets)-len(w.sessions):]...)
+	}
 
 	for _, tg := range targets {
 		rf := w.ref[tg.path]
@@ -804,7 +1095,7 @@ func (w *world) product(thorough bool, st *prodStats) []finding {
 		for _, f := range files {
 			for _, sc := range secrets {
 				placements := []string{"query", "cookie"}
-				if sc.sess != nil {
+				if sc.sess != nil && !w.wide {
 					placements = append(placements, "cookie+bogus-query", "bogus-cookie+query")
 				}
 				if sc.name == "none" {
@@ -854,12 +1145,22 @@ func (w *world) product(thorough bool, st *prodStats) []finding {
 							cip := snd.cip
 							// the scheme name is case-insensitive (RFC 9110): "bearer <secret>" still carries the secret
 							cdnOK := w.cfg == 0 && len(az.val) > 7 && strings.EqualFold(az.val[:7], "Bearer ") && az.val[7:] == cdnSecret
+							// entitled: the statement's condition, literally
 							sessOK := func(p string) bool {
 								return sc.sess != nil && sc.sess.live && sc.sess.authorized && sc.sess.path == p && sc.sess.ip == cip
+							}
+							// open: the statement does not decide (another spelling of the session's address;
+							// a session handed to the holder of a valid secret on the same address)
+							sessOpen := func(p string) bool {
+								return sc.sess != nil && sc.sess.live && (sc.sess.authorized || sc.sess.dontcare) && sc.sess.path == p && ipEqual(sc.sess.ip, cip)
 							}
 
 							desc := map[string]any{"target": tg.urlDir, "file": f.kind, "secret": sc.name, "placement": pl,
 								"x_forwarded_for": xff, "authorization": az.name}
+							if w.px == pxHandler {
+								desc["trusted_proxies"] = "none"
+								desc["remote_addr_host"] = snd.src
+							}
 							if w.px == pxDirect {
 								desc["trusted_proxies"] = "none"
 								desc["tcp_source_address"] = snd.src
@@ -874,6 +1175,8 @@ func (w *world) product(thorough bool, st *prodStats) []finding {
 							rel := sc.name
 							if sc.sess != nil {
 								switch {
+								case sc.sess.dontcare:
+									rel = "sess-open"
 								case !sc.sess.authorized:
 									rel = "sess-unauthorized"
 								case !sc.sess.live:
@@ -883,10 +1186,16 @@ func (w *world) product(thorough bool, st *prodStats) []finding {
 								default:
 									rel = "sess-of-path"
 								}
-								if sc.sess.ip == cip {
+								switch {
+								case sc.sess.ip == cip:
 									rel += "/same-ip"
-								} else {
+								case ipEqual(sc.sess.ip, cip):
+									rel += "/same-ip-other-spelling"
+								default:
 									rel += "/other-ip"
+								}
+								if sc.sess.via != "" {
+									rel += "/obtained-presenting-" + sc.sess.via
 								}
 							}
 							outcome := fmt.Sprintf("%d", code)
@@ -894,6 +1203,20 @@ func (w *world) product(thorough bool, st *prodStats) []finding {
 								outcome = "served"
 							}
 							wtag := ""
+							pair := ""
+							if w.wide {
+								wtag = []string{"wide-proxy:", "", "wide-handler:"}[w.px]
+								if sc.sess != nil {
+									pair = kindOf(sc.sess.ip) + "->" + snd.name
+									rel += "/" + pair
+									if sc.sess.live && sc.sess.authorized && sc.sess.path == tg.path {
+										st.widePairs[wtag+pair]++
+										if servedPath != "" {
+											st.wideServed[wtag+pair]++
+										}
+									}
+								}
+							}
 							if w.px == pxDirect {
 								// direct world: classes also tell the forwarding-header form apart
 								wtag = "direct:"
@@ -925,6 +1248,10 @@ func (w *world) product(thorough bool, st *prodStats) []finding {
 								st.served[wtag+"session-"+pl+"/"+f.kind]++
 								continue
 							}
+							if sessOpen(servedPath) {
+								st.openServed++
+								continue
+							}
 							// violation: classify
 							reason := "no-valid-secret"
 							switch {
@@ -941,14 +1268,20 @@ func (w *world) product(thorough bool, st *prodStats) []finding {
 							case az.name == "basic-alice":
 								reason = "credentials-without-session"
 							}
-							if w.px == pxDirect {
+							ipReason := reason == "session-from-other-ip"
+							if w.px != pxProxy {
 								// the default configuration is its own class; a forged forwarding header is named
 								// (the header form only where the client IP decides: other reasons do not depend on it)
-								ipReason := reason == "session-from-other-ip"
 								reason += ":no-trusted-proxies"
 								if ipReason && snd.forg != "" {
 									reason += ":forged-" + snd.forg
 								}
+							}
+							if w.wide && ipReason {
+								reason += ":" + pair // which kinds of addresses are taken for one another
+							}
+							if sc.sess != nil && sc.sess.via != "" {
+								reason += ":session-obtained-presenting-" + sc.sess.via
 							}
 							if sc.sess != nil && sc.sess.forge != 0 && (strings.HasPrefix(reason, "session-from-other-ip") || strings.HasPrefix(reason, "session-of-unauthorized-client")) {
 								reason += ":session-created-with" + strings.ReplaceAll(forgeNames[sc.sess.forge], ",", "-")
@@ -979,14 +1312,14 @@ type result struct {
 	live     []bool // per session a secret was handed out for: not kicked yet
 	harness  string
 	deviated bool
+	gained   int // sessions the model gained by the last operation
 }
 
 // run replays a history on a fresh server; with check=true the request product is evaluated in
 // the reached state.
 func run(h []op, check, thorough bool) (r result) {
-	r.stats.served = map[string]int{}
-	r.stats.classes = map[string]int{}
-	w := newWorld(h[0].Cfg, h[0].Px)
+	r.stats = newProdStats()
+	w := newWorld(h[0].Cfg, h[0].Px, h[0].Wide)
 	defer func() {
 		// a server whose records deviate from the model (e.g. a kicked session still registered) may
 		// crash the process while shutting down (double close of the session's reader); it is leaked
@@ -998,7 +1331,7 @@ func run(h []op, check, thorough bool) (r result) {
 		w.close()
 	}()
 	for _, o := range h[1:] {
-		w.apply(o)
+		r.gained = w.apply(o)
 	}
 	r.key = w.key()
 	r.nsess = len(w.sessions)
@@ -1024,24 +1357,81 @@ func run(h []op, check, thorough bool) (r result) {
 
 // successors lists the operations that may follow history h. nforge = number of forged-header
 // variants of Create (beyond the plain one) enumerated in h's world.
-func successors(h []op, nsess int, live []bool, credSet []int, nforge int) []op {
+//
+// plain: the ordinary alphabet (Create with credentials only, CDNIndex, Kick) is allowed at this
+// depth; foreign: Create requests that present the secret of an existing session are allowed.
+func successors(h []op, nsess int, live []bool, credSet []int, nforge int, plain, foreign bool, foreignCreds []int, thorough bool) []op {
 	var out []op
-	px := h[0].Px
-	for p := range pathNames {
-		for ip := range worldIPs[px] {
-			for _, c := range credSet {
+	px, wide := h[0].Px, h[0].Wide
+	ips := ipsOf(px, wide)
+	if wide {
+		// the wide worlds vary the ADDRESSES: one authorized owner on path a per address, then every
+		// address presents the owner's secret to the session-creating entry point without credentials
+		if plain && len(h) == 1 {
+			for ip := range ips {
 				for mode := 0; mode < 2; mode++ {
-					for fg := 0; fg <= nforge; fg++ {
-						out = append(out, op{Kind: opCreate, Px: px, Path: p, IP: ip, Cred: c, Mode: mode, Forge: fg})
+					out = append(out, op{Kind: opCreate, Px: px, Wide: true, Path: 0, IP: ip, Cred: 0, Mode: mode})
+				}
+			}
+		}
+		if foreign {
+			for k := 0; k < nsess; k++ {
+				for ip := range ips {
+					for mode := 0; mode < 2; mode++ {
+						for pr := 1; pr <= 2; pr++ {
+							for en := 0; en < 2; en++ {
+								if en == 1 && !thorough {
+									continue
+								}
+								out = append(out, op{Kind: opCreate, Px: px, Wide: true, Path: 0, IP: ip, Cred: 4, Mode: mode, Present: pr, PK: k, Entry: en})
+							}
+						}
 					}
 				}
 			}
 		}
-		out = append(out, op{Kind: opCDN, Px: px, Path: p, Mode: 0}, op{Kind: opCDN, Px: px, Path: p, Mode: 1})
+		return out
 	}
-	for k := 0; k < nsess; k++ {
-		if live[k] {
-			out = append(out, op{Kind: opKick, Px: px, K: k})
+	for p := range pathNames {
+		if plain {
+			for ip := range ips {
+				for _, c := range credSet {
+					for mode := 0; mode < 2; mode++ {
+						for fg := 0; fg <= nforge; fg++ {
+							out = append(out, op{Kind: opCreate, Px: px, Path: p, IP: ip, Cred: c, Mode: mode, Forge: fg})
+						}
+						if len(h) == 1 || thorough {
+							// the other entry point: index.m3u8 without cookieCheck, then the 302
+							out = append(out, op{Kind: opCreate, Px: px, Path: p, IP: ip, Cred: c, Mode: mode, Entry: 1})
+						}
+					}
+				}
+			}
+			out = append(out, op{Kind: opCDN, Px: px, Path: p, Mode: 0}, op{Kind: opCDN, Px: px, Path: p, Mode: 1})
+		}
+		if foreign {
+			// a client presents the secret of session k (anybody's, live or kicked) to every entry point
+			// that can create a session, from every address, without / with bad / with good credentials
+			for k := 0; k < nsess; k++ {
+				for ip := range ips {
+					for _, c := range foreignCreds {
+						for mode := 0; mode < 2; mode++ {
+							for pr := 1; pr <= 2; pr++ {
+								for en := 0; en < 2; en++ {
+									out = append(out, op{Kind: opCreate, Px: px, Path: p, IP: ip, Cred: c, Mode: mode, Present: pr, PK: k, Entry: en})
+								}
+							}
+						}
+					}
+				}
+			}
+		}
+	}
+	if plain {
+		for k := 0; k < nsess; k++ {
+			if live[k] {
+				out = append(out, op{Kind: opKick, Px: px, K: k})
+			}
 		}
 	}
 	return out
@@ -1054,6 +1444,7 @@ func main() {
 	ddepth := flag.Int("ddepth", 2, "maximum number of operations after Init in the direct world (no trusted proxies)")
 	dforge := flag.Int("dforge", 1, "forged-header variants of Create in the direct world (0..2)")
 	pforge := flag.Int("pforge", 0, "forged-header variants of Create in the proxy world (0..2)")
+	fdepth := flag.Int("fdepth", 2, "last position in a history at which a Create may present the secret of an existing session")
 	budget := flag.Duration("budget", 10*time.Minute, "internal deadline")
 	probe := flag.Bool("probe", false, "print the discovered files and exit")
 	r := vcommon.Start("C43", "model_checking")
@@ -1064,13 +1455,13 @@ func main() {
 	if *probe {
 		for i := 0; i < 5; i++ {
 			t := time.Now()
-			w0 := newWorld(0, i%2)
+			w0 := newWorld(0, i%3, i%3 != 1 && i > 2)
 			t1 := time.Since(t)
 			w0.close()
 			fmt.Printf("world: create %v close %v\n", t1, time.Since(t)-t1)
 		}
 		for px := 0; px < 2; px++ {
-			w := newWorld(0, px)
+			w := newWorld(0, px, false)
 			for _, n := range pathNames {
 				fmt.Printf("%s: %+v\n", n, w.ref[n].files)
 			}
@@ -1079,9 +1470,7 @@ func main() {
 			w.apply(op{Kind: opCreate, Px: px, Path: 0, IP: 1, Cred: 2, Mode: 1})
 			w.apply(op{Kind: opCDN, Px: px, Path: 0})
 			fmt.Println(w.key(), w.anomaly)
-			var st prodStats
-			st.served = map[string]int{}
-			st.classes = map[string]int{}
+			st := newProdStats()
 			t := time.Now()
 			f := w.product(thorough, &st)
 			fmt.Printf("%d findings, %d requests, served %v refused %d forgedPin %d forgedEntitled %d in %v\n", len(f), st.requests, st.served, st.refused, st.forgedPin, st.forgedEntitled, time.Since(t))
@@ -1094,14 +1483,27 @@ func main() {
 	for i := 0; i < *ncreds && i < len(creds); i++ {
 		credSet = append(credSet, i)
 	}
-	r.Rule = fmt.Sprintf("BFS over histories Init(cdn on/off, trusted proxies = loopback | none (default))·{Create(path,ip,cred,query|cookie[,forged forwarding header]), CDNIndex(path, Bearer cdn|Bearer empty), Kick(k)}* "+
-		"(proxy world <=%d operations, direct world <=%d operations, <=%d sessions) "+
+	foreignCreds := []int{4, 0} // no credentials; alice (an authorized client presenting a foreign secret gets an ordinary session)
+	if thorough {
+		foreignCreds = []int{4, 3, 5, 6, 0}
+		// deeper by default in the thorough tier
+		set := false
+		flag.Visit(func(f *flag.Flag) { set = set || f.Name == "fdepth" })
+		if !set {
+			*fdepth = 3
+		}
+	}
+
+	r.Rule = fmt.Sprintf("BFS over histories Init(cdn on/off, trusted proxies = loopback | none (default))·{Create(path,ip,cred,query|cookie[,forged forwarding header][,presenting the secret of session k in query|cookie][,entry index.m3u8?cookieCheck=1 | index.m3u8 + 302]), CDNIndex(path, Bearer cdn|Bearer empty), Kick(k)}* "+
+		"(proxy world <=%d operations, direct world <=%d operations, <=%d sessions; Create presenting a foreign secret up to position %d in both worlds; "+
+		"plus two worlds with the wide client-address alphabet {IPv4 a, IPv4 b, IPv6 a, IPv6 b, IPv4-mapped IPv6 of a, link-local IPv6}: proxy world over TCP and no-trusted-proxies world through the server's http.Handler with a chosen RemoteAddr, "+
+		"histories Create(a, owner address, alice)·Create(a, requester address, no credentials, presenting the owner's secret), every owner x requester pair) "+
 		"on a fresh real hls.Server per transition; states deduplicated by (trusted proxies, cdn configured, sorted live session records path@ip, CDN sessions, kicked sessions); "+
 		"in every distinct state the full product target x file x secret x placement x sender x Authorization is requested over TCP, where sender = X-Forwarded-For value (proxy world: the harness is the trusted proxy) "+
 		"or TCP source address {127.0.0.1, 127.0.0.2} x forged forwarding headers naming the other address (direct world); "+
-		"distinct = state keys plus request outcome classes (world | file kind | relation of the presented secret to the sessions and to the client IP [| forged header form] | placement | Authorization kind | cdn configured | served or status)", *depth, *ddepth, *maxSess)
-	depthOf := [2]int{*depth, *ddepth}
-	forgeOf := [2]int{*pforge, *dforge}
+		"distinct = state keys plus request outcome classes (world | file kind | relation of the presented secret to the sessions and to the client IP [| forged header form | owner address kind -> requester address kind] | placement | Authorization kind | cdn configured | served or status)", *depth, *ddepth, *maxSess, *fdepth)
+	depthOf := [3]int{*depth, *ddepth, 0}
+	forgeOf := [3]int{*pforge, *dforge, 0}
 
 	// determinism discipline
 	execs := 0
@@ -1127,6 +1529,11 @@ func main() {
 	reqClasses := map[string]bool{}
 	refused, denied401, authDeny := 0, 0, 0
 	forgedPin, forgedEntitled := 0, 0
+	widePairs, wideServed := map[string]int{}, map[string]int{}
+	openServed := 0
+	// Create requests presenting a foreign secret: by "requester authorized by its own credentials",
+	// how many were executed and how many were handed a session
+	foreignRuns, foreignGained := map[bool]int{}, map[bool]int{}
 	anomalies := map[string]int{}
 	exhausted := true
 	abort := false // a state whose records contradict the model was met: report and stop
@@ -1160,6 +1567,13 @@ func main() {
 			authDeny += res.stats.authDeny
 			forgedPin += res.stats.forgedPin
 			forgedEntitled += res.stats.forgedEntitled
+			openServed += res.stats.openServed
+			for k, v := range res.stats.widePairs {
+				widePairs[k] += v
+			}
+			for k, v := range res.stats.wideServed {
+				wideServed[k] += v
+			}
 			for k, v := range res.stats.served {
 				served[k] += v
 			}
@@ -1200,6 +1614,14 @@ func main() {
 			execs++
 			transitions++
 			r.Eval(1)
+			if lo := jobs[i][len(jobs[i])-1]; lo.Kind == opCreate && lo.Present != 0 {
+				ips := ipsOf(lo.Px, lo.Wide)
+				a := modelAuthorized(creds[lo.Cred], pathNames[lo.Path], ips[lo.IP], ips[0])
+				foreignRuns[a]++
+				if res.gained > 0 {
+					foreignGained[a]++
+				}
+			}
 			if res.deviated {
 				abort = true
 				for _, f := range res.findings {
@@ -1229,18 +1651,26 @@ func main() {
 	frontier := expand([][]op{
 		{{Kind: opInit, Cfg: 0, Px: pxProxy}}, {{Kind: opInit, Cfg: 1, Px: pxProxy}},
 		{{Kind: opInit, Cfg: 0, Px: pxDirect}}, {{Kind: opInit, Cfg: 1, Px: pxDirect}},
+		{{Kind: opInit, Cfg: 0, Px: pxProxy, Wide: true}}, {{Kind: opInit, Cfg: 0, Px: pxHandler, Wide: true}},
 	})
 	checkStates(frontier)
 	completed := 0
-	maxDepth := max(depthOf[0], depthOf[1])
+	maxDepth := max(depthOf[0], depthOf[1], *fdepth)
 	for d := 1; d <= maxDepth && len(frontier) > 0; d++ {
 		var jobs [][]op
 		for _, s := range frontier {
 			px := s.hist[0].Px
-			if d > depthOf[px] {
+			plain := d <= depthOf[px] || (s.hist[0].Wide && d == 1)
+			foreign := d >= 2 && d <= *fdepth
+			if !plain && !foreign {
 				continue
 			}
-			for _, o := range successors(s.hist, s.nsess, s.live, credSet, forgeOf[px]) {
+			fc := foreignCreds
+			if !plain {
+				// beyond the world's own depth only the requests that must not buy anything
+				fc = fc[:len(fc)-1]
+			}
+			for _, o := range successors(s.hist, s.nsess, s.live, credSet, forgeOf[px], plain, foreign, fc, thorough) {
 				if o.Kind == opCreate && s.nsess >= *maxSess {
 					continue
 				}
@@ -1278,6 +1708,23 @@ func main() {
 				vcommon.Harness("vacuous: nothing was ever served through %s", door)
 			}
 		}
+		// wide address alphabet: every owner x requester pair presented a live secret in both worlds,
+		// and every owner (IPv6 ones too) was really served its own session
+		for _, wt := range []string{"wide-proxy:", "wide-handler:"} {
+			for _, ok := range wideKinds {
+				for _, rk := range wideKinds {
+					if widePairs[wt+ok+"->"+rk] == 0 {
+						vcommon.Harness("vacuous: %s no request from a %s address presented the secret of a session owned by a %s address", wt, rk, ok)
+					}
+				}
+				if wideServed[wt+ok+"->"+ok] == 0 {
+					vcommon.Harness("vacuous: %s a session owned by a %s address was never served to its owner", wt, ok)
+				}
+			}
+		}
+		if *fdepth >= 2 && (foreignRuns[false] == 0 || foreignGained[true] == 0) {
+			vcommon.Harness("vacuous: Create requests presenting a foreign secret: %d without valid credentials, %d with valid credentials handed a session", foreignRuns[false], foreignGained[true])
+		}
 	}
 	for a, n := range anomalies {
 		r.Note("%s (x%d)", a, n)
@@ -1292,6 +1739,14 @@ func main() {
 	r.Set("served_by_class", served)
 	r.Set("request_outcome_classes", len(reqClasses))
 	r.Set("entitled_but_refused", authDeny)
+	r.Set("wide_alphabet_owner_requester_pairs", len(widePairs))
+	r.Set("wide_alphabet_requests_with_live_secret_by_pair", widePairs)
+	r.Set("wide_alphabet_served_by_pair", wideServed)
+	r.Set("served_where_the_statement_is_open", openServed)
+	r.Set("creates_presenting_foreign_secret_without_valid_credentials", foreignRuns[false])
+	r.Set("creates_presenting_foreign_secret_without_valid_credentials_handed_a_session", foreignGained[false])
+	r.Set("creates_presenting_foreign_secret_with_valid_credentials", foreignRuns[true])
+	r.Set("creates_presenting_foreign_secret_with_valid_credentials_handed_a_session", foreignGained[true])
 	r.Set("bound_completed", min(completed, depthOf[0]))
 	r.Set("bound_completed_direct_world", min(completed, depthOf[1]))
 	r.Set("direct_world_forged_header_requests_with_foreign_session_secret", forgedPin)
@@ -1307,7 +1762,10 @@ func main() {
 		"direct world (TrustedProxies empty, the default): the client IP is the TCP source address of the connection (client sockets bound to 127.0.0.1 / 127.0.0.2; needs Linux loopback semantics, every 127/8 address local); forwarding headers are client-supplied and carry no authority",
 		"'session' = a live record (a kicked session's secret must not be served any more: the design's reading of 'a session'); expiry by the 10 s cleanup ticker after 30 s of inactivity is not exercised (no virtual clock in this harness)",
 		"only the 'served only to' direction is judged; entitled requests that are refused are counted (entitled_but_refused), not reported",
-		"reference bodies come from the gohlslib muxer directly (shim), so serving is recognised by content, not by status alone",
+		"reference bodies come from the gohlslib muxer directly (found by type below the hls.Server with reflection; no private name of the package is used), so serving is recognised by content, not by status alone",
+		"handler world: requests are handed to the http.Handler of the server's *http.Server (found by type) with a chosen RemoteAddr; net/http's connection handling is not in that loop (it is in the proxy and direct worlds)",
+		"two spellings of one address (10.0.0.1 / ::ffff:10.0.0.1) are the same IP or not: left open by the statement, both answers accepted; likewise a session handed to a client without valid credentials that presented, from the same address and for the same path, the live secret of an authorized session",
+		"session records (state key, kick) are read through the exported APISessionsList / APISessionsKick; a new record is attributed to the secret handed out by the same request",
 	}
 	r.Finish()
 }
